@@ -201,7 +201,53 @@ def orc_b_witness(case):
     return None
 
 
+CV_SINGLE = {
+    'crossnobis': ('calc_rdm_crossnobis', ['dataset', 'descriptor', 'noise', 'cv_descriptor', 'remove_mean']),
+    'poisson_cv': ('calc_rdm_poisson_cv', ['dataset', 'descriptor', 'prior_lambda', 'prior_weight', 'cv_descriptor']),
+}
+
+
+def tier_a(run):
+    """engine A (ast -> z3 on the real source): (1) calc_rdm hands a single dataset to the cross-validated estimator of the
+    method with EXACTLY the caller's options (descriptor, precision, fold descriptor, remove_mean resp. the poisson prior: any
+    value, also 0 / None / False); (2) the callee contract of the fold selection -- Dataset.subset_obs selects by
+    descriptor_utils.bool_index -- is discharged in this run too: a flag is set exactly where the descriptor has a requested
+    value, for all descriptor columns and value lists (the same contract C10 generates)."""
+    import z3
+    from contracts.common import new_engine, finish_engine, install_dataset
+    from contracts.C10 import check_selection_helpers
+    from vf.pyvc.api import FuncCheck
+    CALC = 'rsatoolbox.rdm.calc.'
+    E = new_engine(run)
+    install_dataset(E)
+    fails = []
+    for method, (fn, opts) in CV_SINGLE.items():
+        for desc_case in ('given', 'none'):
+            ck = FuncCheck(E, run, 'C02', CALC + 'calc_rdm', f'single,method={method},descriptor={desc_case}')
+
+            def mk(E, method=method, desc_case=desc_case):
+                kw = dict(method=method, descriptor='cond' if desc_case == 'given' else None,
+                          noise=E.sym_val('noise', tag='ndarray'), cv_descriptor=E.sym_val('cv_descriptor'),
+                          prior_lambda=E.sym_val('prior_lambda'), prior_weight=E.sym_val('prior_weight'),
+                          remove_mean=E.sym_val('remove_mean'))
+                return [E.sym_obj('dataset', 'Dataset')], kw, []
+
+            def post(ck, E, args, kw, p, fn=fn, opts=opts):
+                fv = E.find_function(CALC + fn)
+                vals = dict(kw, dataset=args[0])
+                bound = E.bind_args(fv.node, [], {k: vals[k] for k in opts}, module=fv.module)
+                want = E.app(CALC + fn, [bound[q] for q in bound], 'obj', cls='RDMs')
+                ck.ensure_eq('post/dispatch-with-exactly-the-callers-options', p.value, want)
+            ck.execute(mk, post=post, allow_raise=lambda *a: None)
+            fails += ck.failed
+    for ck in check_selection_helpers(run, E, pid='C02', fns=('bool_index',), gathers=False):
+        fails += ck.failed
+    finish_engine(E, run)
+    return fails
+
+
 def run(run):
+    afails = tier_a(run)
     bfails = tier_b(run, run.tier == 'thorough')
     # concrete replay of engine-B refutations on the unpatched functions
     bd = Bounded(run, 'C02/B-witness', 'C02/cv/oracle/float-replay-of-symbolic-refutations',
@@ -220,8 +266,9 @@ def run(run):
         bds += C02_c.tier_c(run, run.tier == 'thorough')
     except ImportError:
         run.notes.append('bounded tier (contracts/C02_c.py) not present')
-    report_a_failures(run, [(nm, desc, detail) for nm, desc, detail in bfails], bds)
-    run.explanation = ('engine B: the real functions run on sympy object arrays; identities with the literal definition decided by '
+    report_a_failures(run, afails + [(nm, desc, detail) for nm, desc, detail in bfails], bds)
+    run.explanation = ('engine A: calc_rdm forwards exactly the caller\'s options to the cross-validated estimators, fold selection helper '
+                       'bool_index under contract; engine B: the real functions run on sympy object arrays; identities with the literal definition decided by '
                        'normal form for all real data at the listed designs; bounded tier for larger float designs and invariances')
 
 
